@@ -287,11 +287,12 @@ def gen_ordinal(rng, kind=None, big=False):
 
 
 def gen_categorical(rng):
-    m = rng.randint(1, 6)
+    big = rng.random() < 0.08          # two-digit numbers of alternatives and ballots
+    m = rng.randint(9, 13) if big else rng.randint(1, 6)
     k = rng.choice([1, 2, 3, 4, 2, 3, 10, 12])
     alts = gen.alt_ids(rng, m)
     prefs, seen = [], set()
-    for _ in range(rng.randint(1, 6)):
+    for _ in range(rng.randint(8, 16) if big else rng.randint(1, 6)):
         chosen = gen.perm(rng, alts)[: rng.randint(0, m)]
         cuts = sorted(rng.randint(0, len(chosen)) for _ in range(k - 1))
         b = [sorted(chosen[a:b]) if rng.random() < 0.5 else chosen[a:b] for a, b in zip([0] + cuts, cuts + [len(chosen)])]
@@ -326,7 +327,8 @@ def gen_weight(rng):
 
 
 def gen_matching(rng):
-    m = rng.randint(1, 6)
+    big = rng.random() < 0.08          # two-digit numbers of nodes and edges
+    m = rng.randint(10, 14) if big else rng.randint(1, 6)
     alts = gen.alt_ids(rng, m)
     nodes, weights = [], []
 
@@ -335,7 +337,7 @@ def gen_matching(rng):
             nodes.append([n, []])
 
     history = []
-    for _ in range(rng.randint(1, 10)):
+    for _ in range(rng.randint(15, 40) if big else rng.randint(1, 10)):
         a, b = rng.choice(alts), rng.choice(alts)
         if rng.random() < 0.15:
             b = a
